@@ -220,16 +220,16 @@ func genHTTPTokCase(t *rapid.T) HTTPTokCase {
 		_ = pow
 	case 3:
 		c.Class = "string"
-		s := rapid.StringN(1, 40, -1).Draw(t, "s")
+		s := rapid.StringN(6, 40, -1).Draw(t, "s") // not shorter: one service and one token store serve all cases of the process, and the token space of a 1-character value is a few dozen tokens (exhaustion is TestTokenHistory's subject)
 		b, _ := json.Marshal(s)
 		c.Value = string(b)
 	case 5:
 		c.Class = "email"
-		b, _ := json.Marshal(rapid.StringMatching(`[a-z]{1,8}@[a-z]{1,8}\.(com|org)`).Draw(t, "e"))
+		b, _ := json.Marshal(rapid.StringMatching(`[a-z]{6,12}@[a-z]{4,8}\.(com|org)`).Draw(t, "e"))
 		c.Value = string(b)
 	default:
 		c.Class = "bytes"
-		raw := rapid.SliceOfN(rapid.Byte(), 1, 40).Draw(t, "b")
+		raw := rapid.SliceOfN(rapid.Byte(), 6, 40).Draw(t, "b")
 		b, _ := json.Marshal(base64.StdEncoding.EncodeToString(raw))
 		c.Value = string(b)
 	}
